@@ -52,7 +52,11 @@ PROPS['C04']['legs']['quick'].append(dict(scenario='C04', runs=0, budget=300, ta
 PROPS['C04']['legs']['thorough'].append(dict(scenario='C04', runs=0, budget=3000, tag='sweep', sweep=_c04_sweep(6, 3)))
 add_leg('C12', 'C12g', 400, 60, 20000, 600)
 add_leg('C11', 'C11h', 320, 60, 20000, 1500)
-PROPS['C20']['race_legs'] = {'quick': [dict(scenario='C20', runs=480)], 'thorough': [dict(scenario='C20', runs=40000)]}
+# the race-detector build also runs the teardown, shutdown, reset, transfer and adversary scenarios (their white-box
+# monitors read library state through unexported accessors from the driver: those reports are filtered, see racecheck.py)
+PROPS['C20']['race_legs'] = {
+    'quick': [dict(scenario='C20', runs=480)] + [dict(scenario=s, runs=96) for s in ('C09', 'C08', 'C14', 'C01', 'C06', 'C18', 'C03', 'C15b')],
+    'thorough': [dict(scenario='C20', runs=40000)] + [dict(scenario=s, runs=4000) for s in ('C09', 'C08', 'C14', 'C01', 'C06', 'C18', 'C03', 'C15b', 'C17', 'C10', 'C04')]}
 add_leg('C20', 'D_deadline_two_readers', 1, 10, 1, 10)
 add_leg('C20', 'D_write_deadline_moved', 400, 30, 40000, 600)
 add_leg('C16', 'C16r', 4000, 60, 300000, 1200)
@@ -170,7 +174,7 @@ MANIFEST_TEXT.update({
 MANIFEST_TEXT.update({
     'C20': dict(design_ref='DESIGN.md §5 C20',
                 technique='deterministic simulation: seeded programs of concurrent API calls (2-10 client tasks on shared Association / Stream objects) under the token scheduler with task switches at every lock, wake-up and channel operation; lock-table deadlock detection, every-call-returns oracle, lock-free callback entry, FIFO linearizability of each ordered stream direction checked with porcupine; Go race detector on the same simulation with the synchronisation of the simulator hidden from it',
-                text='Seeded exploration: up to 5 client tasks per endpoint run programs of 3-16 calls (WriteSCTP and ReadSCTP on the same streams from several tasks, read / write deadlines set and moved, reliability parameters, buffered-amount getters, threshold and callback installation with a callback that calls back into stream and association, statistics getters, ActiveHeartbeat, SetMaxMessageSize, AcceptStream; in a third of the runs Stream.Close, Shutdown with a context, Close and Abort fired concurrently at the end) while traffic, loss and timers are active. Oracles: no lock cycle among parked tasks, every call returns (after both associations are closed at the latest), callbacks entered with no instrumented lock held, no panic, no library goroutine left after Close; per stream direction no message altered, duplicated, delivered after a failed write or - when nothing was closed - lost; the invoke / return history of successful writes and reads of every ordered direction must be linearizable as a FIFO queue (porcupine, 20 s budget, timeouts counted, never reported). Two defects found and fixed (F12, F13), kept under watch by directed legs. Data races: the same seeded storms are run in a race-detector build in which the synchronisation of the simulator itself (token hand-over, harness mutexes) is hidden from the detector and harness functions are compiled without instrumentation, so that a report means that the library itself does not order two conflicting accesses - independent of whether the seeded schedule made them adjacent; reports between harness accesses are filtered. One seed per process, replayable by seed. Evidence, not proof.',
+                text='Seeded exploration: up to 5 client tasks per endpoint run programs of 3-16 calls (WriteSCTP and ReadSCTP on the same streams from several tasks, read / write deadlines set and moved, reliability parameters, buffered-amount getters, threshold and callback installation with a callback that calls back into stream and association, statistics getters, ActiveHeartbeat, SetMaxMessageSize, AcceptStream; in a third of the runs Stream.Close, Shutdown with a context, Close and Abort fired concurrently at the end) while traffic, loss and timers are active. Oracles: no lock cycle among parked tasks, every call returns (after both associations are closed at the latest), callbacks entered with no instrumented lock held, no panic, no library goroutine left after Close; per stream direction no message altered, duplicated, delivered after a failed write or - when nothing was closed - lost; the invoke / return history of successful writes and reads of every ordered direction must be linearizable as a FIFO queue (porcupine, 20 s budget, timeouts counted, never reported). Two defects found and fixed (F12, F13), kept under watch by directed legs. Data races: the same seeded storms are run in a race-detector build in which the synchronisation of the simulator itself (token hand-over, harness mutexes) is hidden from the detector and harness functions are compiled without instrumentation, so that a report means that the library itself does not order two conflicting accesses - independent of whether the seeded schedule made them adjacent; reports between harness accesses (and of library state read by the harness through unexported accessors, or initialised by a constructor and handed between client tasks by the harness) are filtered. The race build runs the storm scenario and, in smaller numbers, the teardown, shutdown, reset, transfer, API-contract and adversary scenarios. One seed per process, replayable by seed. Evidence, not proof.',
                 note=SIM_NOTE),
 })
 
